@@ -62,6 +62,8 @@ def producers(env):
     P.append(dict(text='(DATE(2020,1,1)+COMPLEX(1,2))', code=None, kind='operator-python'))
     P.append(dict(text='(COMPLEX(1,2)*"1/2/2020")', code=None, kind='operator-python'))
     P.append(dict(text='(DATE(2020,1,1)-COMPLEX(1,2))', code=None, kind='operator-python'))
+    # a percent literal beyond the largest number: an error value like the quotient it is (not an abort of the formula)
+    P.append(dict(text='(1' + '0' * 311 + '%)', code=None, kind='operator-python'))
     for i, c in enumerate(CODES8):
         P.append(dict(text='FRAISE(%d)' % i, code=c, kind='custom-raises'))
         P.append(dict(text='FRET(%d)' % i, code=c, kind='custom-returns'))
@@ -87,7 +89,7 @@ def producers(env):
     return P
 
 
-NPRODUCERS = 101
+NPRODUCERS = 102
 
 
 LITERALS = ['#NULL!', '#DIV/0!', '#VALUE!', '#REF!', '#NAME?', '#NUM!', '#N/A', '#ERROR!', '#GETTING_DATA']
